@@ -83,6 +83,13 @@ class _VariationalStrategy(Module, ABC):
         self._variational_distribution = variational_distribution
         self.register_buffer("variational_params_initialized", torch.tensor(0))
 
+    def __getstate__(self):
+        # The memo holds tensors that carry an autograd graph: they can neither be deep-copied nor do they belong to
+        # the state of the model. They are recomputed on demand.
+        state = self.__dict__.copy()
+        state["_memoize_cache"] = {}
+        return state
+
     def _clear_cache(self) -> None:
         clear_cache_hook(self)
 
